@@ -558,7 +558,12 @@ func (s *Store) gcIndex(ctx context.Context) error {
 		// check if the referrers manifest can traverse to the existing graph
 		subject := &desc
 		for {
-			subject, err := manifestutil.Subject(ctx, s.storage, *subject)
+			var err error
+			subject, err = manifestutil.Subject(ctx, s.storage, *subject)
+			if errors.Is(err, errdef.ErrNotFound) {
+				// the chain ends at content that is no longer stored
+				break
+			}
 			if err != nil {
 				return err
 			}
